@@ -120,6 +120,7 @@ namespace vh
             std::map<int, std::unique_ptr<fs::basin_graph<impl_t>>> bgs;
             // eroder objects kept alive across steps ("eid" of the spl step)
             std::map<long long, std::shared_ptr<void>> eroders;
+            std::map<long long, const xt::xarray<double>*> last_erosion;  // array returned by the last erode() of each eroder
         };
 
         std::unique_ptr<G> grid;
@@ -360,6 +361,36 @@ namespace vh
                     o.str("e", "SetMask").num("g", g).ints("m", mv).ints("back", back);
                     emit(o.done());
                 }
+                else if (op == "burn")
+                {
+                    // "times" further update_routes calls with the same field, not logged: the specification
+                    // has no hidden state, so unobserved calls change nothing (call counters, stamps and
+                    // generation numbers of the implementation must not show either)
+                    auto& h = graphs.at(g);
+                    h.z = make_z(s["z"]);
+                    long long times = s["times"].as_int();
+                    for (long long k = 0; k < times; ++k)
+                        h.out = &h.fg->update_routes(h.z);
+                    continue;
+                }
+                else if (op == "mask_bad")
+                {
+                    // a mask whose shape is not the grid's: must be refused, the graph stays as it was
+                    auto& h = graphs.at(g);
+                    xt::xarray<bool> m = xt::xarray<bool>::from_shape({ n + 1 });
+                    m.fill(true);
+                    std::string threw;
+                    try
+                    {
+                        h.fg->set_mask(m);
+                    }
+                    catch (const std::exception& e)
+                    {
+                        threw = exc_kind(e);
+                    }
+                    o.str("e", "SetMaskBad").num("g", g).str("threw", threw);
+                    emit(o.done());
+                }
                 else if (op == "bl")
                 {
                     auto& h = graphs.at(g);
@@ -405,17 +436,45 @@ namespace vh
                 else if (op == "update")
                 {
                     auto& h = graphs.at(g);
-                    h.z = make_z(s["z"]);
-                    xt::xarray<double> copy = h.z;
-                    const auto& out = h.fg->update_routes(h.z);
+                    // z kind "prev": the values of the array returned by the last update of graph "of";
+                    // alias = 1 (of = this graph): that array OBJECT itself is the argument (the usual
+                    // "elevation = graph.update_routes(elevation)" coupling), alias = 0: a copy of it
+                    const bool prev = s["z"].get_str("k", "int") == "prev";
+                    bool aliased = false;
+                    xt::xarray<double> copy;
+                    const xt::xarray<double>* outp = nullptr;
+                    if (prev)
+                    {
+                        auto& src = graphs.at(s["z"].get_int("of", g));
+                        if (!src.out)
+                            throw std::runtime_error("prev: no earlier update");
+                        copy = *src.out;
+                        aliased = s["z"].get_int("alias", 0) != 0 && s["z"].get_int("of", g) == g;
+                        if (aliased)
+                            outp = &h.fg->update_routes(*h.out);
+                        else
+                        {
+                            h.z = copy;
+                            outp = &h.fg->update_routes(h.z);
+                        }
+                    }
+                    else
+                    {
+                        h.z = make_z(s["z"]);
+                        copy = h.z;
+                        outp = &h.fg->update_routes(h.z);
+                    }
+                    const auto& out = *outp;
                     h.out = &out;
                     bool argsame = true;
-                    for (size_t i = 0; i < n; ++i)
-                        argsame = argsame && same_bits(copy.flat(i), h.z.flat(i));
+                    if (!aliased)
+                        for (size_t i = 0; i < n; ++i)
+                            argsame = argsame && same_bits(copy.flat(i), h.z.flat(i));
                     o.str("e", "Update").num("g", g);
-                    o.str("zk", s["z"].get_str("k", "int"));
-                    o.num("ze", s["z"].get_int("e", 0));
-                    o.ints("zm", s["z"]["m"].as_ints());
+                    o.str("zk", prev ? "raw" : s["z"].get_str("k", "int"));
+                    o.num("ze", prev ? 0 : s["z"].get_int("e", 0));
+                    o.ints("zm", prev ? std::vector<long long>(n, 0) : s["z"]["m"].as_ints());
+                    o.num("aliased", aliased ? 1 : 0);
                     std::vector<double> zi(n), zo(n);
                     std::vector<int> same(n);
                     for (size_t i = 0; i < n; ++i)
